@@ -521,6 +521,7 @@ namespace photon
             if (count == 0) return 0;
             SCOPED_LOCK(splock);
             auto cnt = m_count.fetch_add(count) + count;
+            PHOTON_VERIF_SP(PHOTON_VERIF_SP_ATOMIC, this);
             try_resume(cnt);
             return 0;
         }
